@@ -153,7 +153,11 @@ Definition rejected_obs (ds : string) (e : exn) : bool := match resolve ds with 
         docs = doc_names()
         for fam, name in docs[::9]:
             cases.append({"name": name, "doc": name, "family": fam, "unpack": False, "env": False})
-        for bad in ("no-such-dataset", "sandvine_nothing", "ams-ix", "mix_it_rome_daily", "load_sandvine_audio", ""):
+        # unknown names — among them the bare family names, their spellings, and the names of the package's own helper functions (the
+        # lookup is by reflection on "load_" + name: whatever else gets exported next to the loaders must not become a "dataset")
+        for bad in ("no-such-dataset", "sandvine_nothing", "ams-ix", "mix_it_rome_daily", "load_sandvine_audio", "",
+                    "sandvine", "mix_it", "mix-it", "ams_ix", "ix_br", "ix-br", "dataset", "csv_dataset_from_remote", "csv_dataset_from_resources",
+                    "sandvine_", "dataset_description"):
             cases.append({"name": bad, "doc": None, "family": None, "unpack": False, "env": True})
         return cases
 
